@@ -1,115 +1,136 @@
-(* C15 — the Validate() method of every configuration section, transcribed by hand (definitions only).
-   Each transcription is pinned to a hash of the Go source text of Validate and of the same-file helpers it
-   calls (Gen/ConfigSchemas.v carries the hash of the current source; `validators_pinned` compares), and is
-   checked value by value by the correspondence harness (values below / at / above every bound).
-   hashicorp/raft's ValidateConfig (library code, version pinned by go.mod) is transcribed for the members the
-   section can set. *)
+(* C15 — what a valid configuration of every section is: the MODEL, written by hand (definitions only), as a list of
+   clauses that must all hold, in the vocabulary of Model/C15_VCond.v.
+   The Validate() methods of the 14 config.go files (plus isReplicationFactorValid, validateLibp2p and the
+   hashicorp/raft ValidateConfig of the version go.mod pins) are TRANSLATED at every run into Gen/ConfigValidators.v
+   (one clause per place where the source rejects); `validators_source_is_model` (Props/C15.v) proves that the
+   translation and this model are the same function of oracle and configuration, for every section.
+   Members are named by their JSON name; durations are in ns, floats in 1e-6. *)
 From Coq Require Import String List ZArith Bool.
 From V Require Import Model.C15_Config.
+From V Require Export Model.C15_VCond.
 Import ListNotations.
 Open Scope string_scope.
 Open Scope Z_scope.
 
-Definition zv (g : string -> val) (n : string) : Z := match g n with VZ z => z | _ => 0 end.
-Definition sv (g : string -> val) (n : string) : string := match g n with VS s => s | _ => "" end.
-Definition bv (g : string -> val) (n : string) : bool := match g n with VB b => b | _ => false end.
-Definition lv (g : string -> val) (n : string) : list string := match g n with VL l => l | _ => [] end.
-Definition nonempty_s (s : string) : bool := negb (String.eqb s "").
-Definition is_nil_list (l : list string) : bool := match l with [] => true | _ => false end.
-
 Definition ms := 1000000.
 Definition sec := 1000000000.
 
-(* consensus/raft/config.go Validate + hashicorp/raft v1.1.1 ValidateConfig *)
-Definition valid_raft : validator := fun _ g =>
-  (0 <? zv g "wait_for_leader_timeout") && (0 <? zv g "network_timeout") && (0 <=? zv g "commit_retries")
-  && (0 <? zv g "commit_retry_delay") && (0 <? zv g "backups_rotate")
-  && (5 * ms <=? zv g "heartbeat_timeout") && (5 * ms <=? zv g "election_timeout") && (1 * ms <=? zv g "commit_timeout")
-  && (0 <? zv g "max_append_entries") && (zv g "max_append_entries" <=? 1024)
-  && (5 * ms <=? zv g "snapshot_interval") && (5 * ms <=? zv g "leader_lease_timeout")
-  && (zv g "leader_lease_timeout" <=? zv g "heartbeat_timeout") && (zv g "heartbeat_timeout" <=? zv g "election_timeout").
+(* readable clause forms *)
+Definition pos (n : string) : vcond := CLt (TK 0) (TM n).           (* 0 < n *)
+Definition nonneg (n : string) : vcond := CLe (TK 0) (TM n).        (* 0 <= n *)
+Definition at_least (k : Z) (n : string) : vcond := CLe (TK k) (TM n).
+Definition at_most (n : string) (k : Z) : vcond := CLe (TM n) (TK k).
+Definition below (n : string) (k : Z) : vcond := CLt (TM n) (TK k).
+Definition not_above (a b : string) : vcond := CLe (TM a) (TM b).   (* a <= b *)
+Definition is_k (n : string) (k : Z) : vcond := CEq (TM n) (TK k).
+Definition set_s (n : string) : vcond := CNot (CEmptyS n).          (* string / token member set *)
+Definition set_l (n : string) : vcond := CNot (CNilL n).            (* list member has an element *)
+Definition implies (a b : vcond) : vcond := COr (CNot a) b.
+
+(* consensus/raft/config.go Validate + hashicorp/raft ValidateConfig (for the members the section can set) *)
+Definition model_raft : list vcond := [
+  pos "wait_for_leader_timeout"; pos "network_timeout"; nonneg "commit_retries"; pos "commit_retry_delay"; pos "backups_rotate";
+  at_least (5 * ms) "heartbeat_timeout"; at_least (5 * ms) "election_timeout"; at_least (1 * ms) "commit_timeout";
+  pos "max_append_entries"; at_most "max_append_entries" 1024;
+  at_least (5 * ms) "snapshot_interval"; at_least (5 * ms) "leader_lease_timeout";
+  not_above "leader_lease_timeout" "heartbeat_timeout"; not_above "heartbeat_timeout" "election_timeout"
+].
 
 (* pintracker/stateless/config.go *)
-Definition valid_stateless : validator := fun _ g =>
-  (0 <? zv g "max_pin_queue_size") && (0 <? zv g "concurrent_pins").
+Definition model_stateless : list vcond := [ pos "max_pin_queue_size"; pos "concurrent_pins" ].
 
-(* ipfsconn/ipfshttp/config.go: every check overwrites err, the last one set is returned: any failure rejects *)
-Definition valid_ipfshttp : validator := fun _ g =>
-  nonempty_s (sv g "node_multiaddress") && (0 <=? zv g "connect_swarms_delay") && (0 <=? zv g "ipfs_request_timeout")
-  && (0 <=? zv g "pin_timeout") && (0 <=? zv g "unpin_timeout") && (0 <=? zv g "repogc_timeout").
+(* ipfsconn/ipfshttp/config.go (every check overwrites err, the last one set is returned: any failure rejects) *)
+Definition model_ipfshttp : list vcond := [
+  set_s "node_multiaddress"; nonneg "connect_swarms_delay"; nonneg "ipfs_request_timeout";
+  nonneg "pin_timeout"; nonneg "unpin_timeout"; nonneg "repogc_timeout"
+].
 
 (* cluster_config.go: Validate, isReplicationFactorValid. isRPCPolicyValid concerns a member that is not part of the
    JSON form (always DefaultRPCPolicy after a load), so it does not depend on the document. *)
-Definition rf_valid (mn mx : Z) : bool :=
-  negb (mn =? 0) && negb (mx =? 0) && (mn <=? mx) && (-1 <=? mn) && (-1 <=? mx)
-  && negb (((mn =? -1) && negb (mx =? -1)) || (negb (mn =? -1) && (mx =? -1))).
-Definition valid_cluster : validator := fun _ g =>
-  negb (is_nil_list (lv g "listen_multiaddress"))
-  && (0 <? zv g "connection_manager.low_water") && (0 <? zv g "connection_manager.high_water")
-  && (zv g "connection_manager.low_water" <=? zv g "connection_manager.high_water")
-  && negb (zv g "connection_manager.grace_period" =? 0)
-  && (0 <? zv g "dial_peer_timeout") && (0 <? zv g "state_sync_interval") && (0 <? zv g "pin_recover_interval")
-  && (0 <? zv g "monitor_ping_interval") && (0 <? zv g "peer_watch_interval")
-  && rf_valid (zv g "replication_factor_min") (zv g "replication_factor_max").
+Definition model_cluster : list vcond :=
+  let mn := "replication_factor_min" in let mx := "replication_factor_max" in [
+  set_l "listen_multiaddress";
+  pos "connection_manager.low_water"; pos "connection_manager.high_water";
+  not_above "connection_manager.low_water" "connection_manager.high_water";
+  CNot (is_k "connection_manager.grace_period" 0);
+  pos "dial_peer_timeout"; pos "state_sync_interval"; pos "pin_recover_interval";
+  pos "monitor_ping_interval"; pos "peer_watch_interval";
+  CAnd (CNot (is_k mn 0)) (CNot (is_k mx 0));
+  not_above mn mx; at_least (-1) mn; at_least (-1) mx;
+  (* -1 (everywhere) for both or for none *)
+  CNot (COr (CAnd (is_k mn (-1)) (CNot (is_k mx (-1)))) (CAnd (CNot (is_k mn (-1))) (is_k mx (-1))))
+].
 
 (* consensus/crdt/config.go *)
-Definition valid_crdt : validator := fun _ g =>
-  nonempty_s (sv g "cluster_name") && nonempty_s (sv g "peerset_metric") && (0 <? zv g "rebroadcast_interval")
-  && (0 <? zv g "batching.max_queue_size").
+Definition model_crdt : list vcond := [
+  set_s "cluster_name"; set_s "peerset_metric"; pos "rebroadcast_interval"; pos "batching.max_queue_size"
+].
 
 (* api/rest/config.go: Validate + validateLibp2p. A TLS pair that does not load is refused by tlsOptions before Validate;
    both outcomes are the oracle "tls_ok". "id_matches_key" is peer.ID.MatchesPrivateKey. *)
-Definition valid_restapi : validator := fun orc g =>
-  (0 <=? zv g "read_timeout") && (0 <=? zv g "read_header_timeout") && (0 <=? zv g "write_timeout") && (0 <=? zv g "idle_timeout")
-  && (4096 <=? zv g "max_header_bytes")
-  && (match g "basic_auth_credentials" with VL [] => false | _ => true end)
-  && ((negb (nonempty_s (sv g "ssl_cert_file")) && negb (nonempty_s (sv g "ssl_key_file"))) || orc "tls_ok")
-  && (0 <=? zv g "cors_max_age")
-  && (let any := nonempty_s (sv g "id") || nonempty_s (sv g "private_key") || negb (is_nil_list (lv g "libp2p_listen_multiaddress")) in
-      let all := nonempty_s (sv g "id") && nonempty_s (sv g "private_key") && negb (is_nil_list (lv g "libp2p_listen_multiaddress")) in
-      negb any || (all && orc "id_matches_key")).
-
-(* api/ipfsproxy/config.go (every check overwrites err: any failure rejects) *)
-Definition valid_ipfsproxy : validator := fun _ g =>
-  negb (is_nil_list (lv g "listen_multiaddress")) && nonempty_s (sv g "node_multiaddress")
-  && (0 <=? zv g "read_timeout") && (0 <=? zv g "read_header_timeout") && (0 <=? zv g "write_timeout") && (0 <=? zv g "idle_timeout")
-  && nonempty_s (sv g "extract_headers_path") && (0 <=? zv g "extract_headers_ttl") && (4096 <=? zv g "max_header_bytes").
-
-Definition valid_pubsubmon : validator := fun _ g => (0 <? zv g "check_interval") && (0 <? zv g "failure_threshold").
-Definition valid_disk : validator := fun _ g => (0 <? zv g "metric_ttl") && nonempty_s (sv g "metric_type").
-Definition valid_numpin : validator := fun _ g => (0 <? zv g "metric_ttl").
-Definition valid_metrics : validator := fun _ g =>
-  negb (bv g "enable_stats") || (nonempty_s (sv g "prometheus_endpoint") && (0 <=? zv g "reporting_interval")).
-Definition valid_tracing : validator := fun _ g =>
-  negb (bv g "enable_tracing") || (nonempty_s (sv g "jaeger_agent_endpoint") && (0 <=? zv g "sampling_prob")).
-Definition valid_badger : validator := fun _ g =>
-  nonempty_s (sv g "folder") && (0 <? zv g "gc_discard_ratio") && (zv g "gc_discard_ratio" <? 1000000).
-Definition valid_leveldb : validator := fun _ g => nonempty_s (sv g "folder").
-
-Definition validators : list (string * validator) := [
-  ("cluster", valid_cluster); ("raft", valid_raft); ("crdt", valid_crdt); ("restapi", valid_restapi);
-  ("ipfsproxy", valid_ipfsproxy); ("ipfshttp", valid_ipfshttp); ("stateless", valid_stateless);
-  ("pubsubmon", valid_pubsubmon); ("disk", valid_disk); ("numpin", valid_numpin); ("metrics", valid_metrics);
-  ("tracing", valid_tracing); ("badger", valid_badger); ("leveldb", valid_leveldb)
+Definition model_restapi : list vcond :=
+  let any_p2p := COr (COr (set_s "id") (set_s "private_key")) (set_l "libp2p_listen_multiaddress") in
+  let all_p2p := CAnd (CAnd (set_s "id") (set_s "private_key")) (set_l "libp2p_listen_multiaddress") in [
+  nonneg "read_timeout"; nonneg "read_header_timeout"; nonneg "write_timeout"; nonneg "idle_timeout";
+  at_least 4096 "max_header_bytes";
+  (* null, or at least one entry *)
+  COr (CIsNone "basic_auth_credentials") (CNot (CEmptyM "basic_auth_credentials"));
+  COr (CAnd (CEmptyS "ssl_cert_file") (CEmptyS "ssl_key_file")) (COrc "tls_ok");
+  nonneg "cors_max_age";
+  (* libp2p: all three or none; the ID is the key's *)
+  implies any_p2p all_p2p;
+  implies any_p2p (COrc "id_matches_key")
 ].
 
-Fixpoint assoc_get {A} (k : string) (l : list (string * A)) : option A :=
-  match l with [] => None | (k', v) :: r => if String.eqb k k' then Some v else assoc_get k r end.
+(* api/ipfsproxy/config.go (every check overwrites err: any failure rejects) *)
+Definition model_ipfsproxy : list vcond := [
+  set_l "listen_multiaddress"; set_s "node_multiaddress";
+  nonneg "read_timeout"; nonneg "read_header_timeout"; nonneg "write_timeout"; nonneg "idle_timeout";
+  set_s "extract_headers_path"; nonneg "extract_headers_ttl"; at_least 4096 "max_header_bytes"
+].
+
+Definition model_pubsubmon : list vcond := [ pos "check_interval"; pos "failure_threshold" ].
+Definition model_disk : list vcond := [ pos "metric_ttl"; set_s "metric_type" ].
+Definition model_numpin : list vcond := [ pos "metric_ttl" ].
+Definition model_metrics : list vcond := [
+  implies (CFlag "enable_stats") (set_s "prometheus_endpoint"); implies (CFlag "enable_stats") (nonneg "reporting_interval") ].
+Definition model_tracing : list vcond := [
+  implies (CFlag "enable_tracing") (set_s "jaeger_agent_endpoint"); implies (CFlag "enable_tracing") (nonneg "sampling_prob") ].
+Definition model_badger : list vcond := [ set_s "folder"; CAnd (pos "gc_discard_ratio") (below "gc_discard_ratio" 1000000) ].
+Definition model_leveldb : list vcond := [ set_s "folder" ].
+
+Definition model_clauses : list (string * list vcond) := [
+  ("cluster", model_cluster); ("raft", model_raft); ("crdt", model_crdt); ("restapi", model_restapi);
+  ("ipfsproxy", model_ipfsproxy); ("ipfshttp", model_ipfshttp); ("stateless", model_stateless);
+  ("pubsubmon", model_pubsubmon); ("disk", model_disk); ("numpin", model_numpin); ("metrics", model_metrics);
+  ("tracing", model_tracing); ("badger", model_badger); ("leveldb", model_leveldb)
+].
+
+Definition valid_by (m : list vcond) : validator := fun orc c => accepts_all orc c m.
+
+Definition valid_cluster : validator := valid_by model_cluster.
+Definition valid_raft : validator := valid_by model_raft.
+Definition valid_crdt : validator := valid_by model_crdt.
+Definition valid_restapi : validator := valid_by model_restapi.
+Definition valid_ipfsproxy : validator := valid_by model_ipfsproxy.
+Definition valid_ipfshttp : validator := valid_by model_ipfshttp.
+Definition valid_stateless : validator := valid_by model_stateless.
+Definition valid_pubsubmon : validator := valid_by model_pubsubmon.
+Definition valid_disk : validator := valid_by model_disk.
+Definition valid_numpin : validator := valid_by model_numpin.
+Definition valid_metrics : validator := valid_by model_metrics.
+Definition valid_tracing : validator := valid_by model_tracing.
+Definition valid_badger : validator := valid_by model_badger.
+Definition valid_leveldb : validator := valid_by model_leveldb.
+
+Definition validators : list (string * validator) := map (fun p => (fst p, valid_by (snd p))) model_clauses.
 
 Definition reject_all : validator := fun _ _ => false.
 Definition validator_of (s : string) : validator :=
   match assoc_get s validators with Some v => v | None => reject_all end.
 
-(* hash of the Go text each transcription above was made from *)
-Definition expected_valid_hash : list (string * string) := [
-  ("cluster", "e1c95ecd1d777666"); ("raft", "0d96513109914993"); ("crdt", "8de72c2dc35e5a9c"); ("restapi", "340718475c4efb7e");
-  ("ipfsproxy", "72e92bfbf917999d"); ("ipfshttp", "cb3c282c1feace27"); ("stateless", "f634c99b465e1d3a");
-  ("pubsubmon", "7233b5879d9171b4"); ("disk", "6d64bdad40449398"); ("numpin", "7f828cd637452c59");
-  ("metrics", "0a7e407db8fc1e05"); ("tracing", "c5bd10917695d838"); ("badger", "09b5d763f62edad1"); ("leveldb", "25b836d7e56d515f")
-].
-
-(* custom rules transcribed in Model/C15_Config.v (custom_load) and the hash of the function they were read from *)
+(* custom rules that are NOT translated (Gen/ConfigCustoms.v has the translated ones): transcribed by hand in
+   Model/C15_Config.v (custom_load), pinned to the hash of the function they were read from (restapi tlsOptions) *)
 Definition expected_custom_hash : list (string * string) := [
-  ("crdt.trusted_peers", "6630fcf047d1c4b7"); ("crdt.trusted_peers/save", "4d4b5dc0aef16f34");
   ("restapi.ssl_cert_file", "6edbe991f90ce542"); ("restapi.ssl_key_file", "6edbe991f90ce542")
 ].
